@@ -252,6 +252,34 @@ def _build_harness(st):
     st.harness = binary
 
 
+def build_race_harness():
+    """the same harness built with the Go race detector (needs cgo); returns the path or None"""
+    work = os.path.join(BUILD, "harness_src")
+    binary = os.path.join(BUILD, "harness_race")
+    with open(os.path.join(BUILD, ".lock"), "w") as lock:
+        fcntl.flock(lock, fcntl.LOCK_EX)
+        rc, out = sh(["timeout", "900", "go", "build", "-race", "-tags", "verif", "-o", binary + ".new", "."], cwd=work,
+                     env=dict(GOENV, CGO_ENABLED="1"), timeout=1000)
+        if rc != 0:
+            return None, out[-2000:]
+        os.replace(binary + ".new", binary)
+    return binary, ""
+
+
+def run_race(binary, requests, timeout=1800):
+    """run requests under the race-enabled harness; returns (results or None, race report text)"""
+    data = "\n".join(json.dumps(r, separators=(",", ":")) for r in requests) + "\n"
+    p = subprocess.run([binary, "-workers=8", "-deadline-ms=120000"], input=data, stdout=subprocess.PIPE, stderr=subprocess.PIPE,
+                       text=True, timeout=timeout, env=dict(os.environ, GORACE="halt_on_error=0"))
+    races = p.stderr if "DATA RACE" in p.stderr else ""
+    lines = [l for l in p.stdout.split("\n") if l]
+    try:
+        res = [json.loads(l) for l in lines]
+    except ValueError:
+        res = None
+    return res, races
+
+
 # ---------------------------------------------------------------------------------------------
 # running the two sides
 # ---------------------------------------------------------------------------------------------
